@@ -61,6 +61,11 @@ pub fn style_name(name: &str, style: u8) -> String {
 
 /// Build the head: status line + given header lines (name, raw value) + blank line.
 pub fn build_head(version: &str, status: u16, reason: Option<&str>, headers: &[(String, Vec<u8>)], structural: &mut Vec<usize>) -> Vec<u8> {
+    build_head_sep(version, status, reason, headers, structural, b": ")
+}
+
+/// `sep` is what stands between a field name and its value: a colon, optionally followed by blanks.
+pub fn build_head_sep(version: &str, status: u16, reason: Option<&str>, headers: &[(String, Vec<u8>)], structural: &mut Vec<usize>, sep: &[u8]) -> Vec<u8> {
     let mut w = Vec::new();
     w.extend_from_slice(version.as_bytes());
     w.push(b' ');
@@ -75,7 +80,7 @@ pub fn build_head(version: &str, status: u16, reason: Option<&str>, headers: &[(
     structural.push(w.len());
     for (n, v) in headers {
         w.extend_from_slice(n.as_bytes());
-        w.extend_from_slice(b": ");
+        w.extend_from_slice(sep);
         w.extend_from_slice(v);
         structural.push(w.len());
         w.extend_from_slice(b"\r\n");
